@@ -218,16 +218,22 @@ func (w *World) rawFunc(spec FuncSpec) interface{} {
 		}
 		w.record(spec, terms)
 		var res []reflect.Value
+		mk := func(i int, l Label) reflect.Value {
+			if spec.NilIface && (l.T == TI || l.T == TI2) {
+				return reflect.Zero(typeOf(l.T)) // a nil interface value
+			}
+			return mkVal(l.T, outTerm(spec, i, terms))
+		}
 		if len(spec.Out) > 0 {
 			switch spec.OutForm {
 			case FormPositional:
 				for i, l := range spec.Out {
-					res = append(res, mkVal(l.T, outTerm(spec, i, terms)))
+					res = append(res, mk(i, l))
 				}
 			default:
 				st := reflect.New(structOf(spec.Out)).Elem()
 				for i, l := range spec.Out {
-					st.Field(i + 1).Set(mkVal(l.T, outTerm(spec, i, terms)))
+					st.Field(i + 1).Set(mk(i, l))
 				}
 				if spec.OutForm == FormPtrStruct && spec.NilOut {
 					// a nil pointer result: the library treats it as all-zero outputs
